@@ -30,6 +30,8 @@ var c19Pool = []string{
 	"find all {'(' at least 0 (s or letter) ')'} = s",
 	"find all in 'a' to 'c', digit not in 'x', whitespace",
 	"find all @/(a)(b)(c)(d)\\4\\3\\2\\1/",
+	"find all at least 1 ((letter = c) maybe digit) named items",
+	"find all 'x' at least 0 digit",
 	// compilations that FAIL (in the lexer, the parser, the regex sub-parser, the generator, the type checker) run
 	// concurrently with the others: an error path must leave nothing shared behind either
 	"find all 'unterminated",
@@ -44,7 +46,9 @@ var c19Pool = []string{
 	"find all " + strings.Repeat("(in 'a' to 'c', 'x') ", 15),
 }
 
-var c19Texts = []string{"ababa abab", "acca bccb", "aaba ab", "ab12 aab123 b7", "xaxbyaybb", "aabbdzaabbd", "x12 x13 x9", "hello wor1d", "abab aca", "(a(b)) ()", "a1 c2 x ", "abcddcba"}
+var c19Texts = []string{"ababa abab", "acca bccb", "aaba ab", "ab12 aab123 b7", "xaxbyaybb", "aabbdzaabbd", "x12 x13 x9", "hello wor1d", "abab aca", "(a(b)) ()", "a1 c2 x ", "abcddcba",
+	// long enough for loops to pass 64, 128 and 256 iterations in one attempt
+	strings.Repeat("a", 70) + "b12 " + strings.Repeat("a", 130) + "bb7", "(" + strings.Repeat("ab", 140) + ") x" + strings.Repeat("1", 300) + " x12", strings.Repeat("ab", 40) + "xa" + strings.Repeat("b", 90) + "ya" + strings.Repeat("ab", 70)}
 
 var raceHead = regexp.MustCompile(`^\s+(\S+)\(.*\)$`)
 
@@ -126,7 +130,7 @@ func C19(r *drv.Run) {
 	if !quick(r) {
 		rounds = 3000
 	}
-	r.Rule = "rounds of 8..32 goroutines issuing Compile (sources with and without regex groups, with loops, with relocated global patterns, sources that fail in the lexer / parser / regex sub-parser / generator / type checker, sources of about a kilobyte), Compile+Run, Run on shared pre-compiled programs and Run followed by Json()/FormattedJson() of the result list, all released from one barrier, in a -race build of the worker; yield hooks (H2 every lexer read, H3 parser/generator sites, H1 every VM step) armed in half of the rounds. Oracle 1: the Go race detector (GORACE halt_on_error=0, log files parsed, reports de-duplicated by the pair of outermost repository frames): any report is a violation. Oracle 2: every concurrent call's result digest (canonical bytecode with loop ids normalised; all match fields; the rendered JSON texts) equals the digest of the same call executed alone in a fresh sequential worker. Oracle 3: canonical bytecode of the shared programs unchanged by the round. Non-trivial = a call whose [call,return] interval overlapped another call's on the shared monotonic clock; distinct by (round, call index)."
+	r.Rule = "rounds of 8..32 goroutines issuing Compile (sources with and without regex groups, with loops, with relocated global patterns, sources that fail in the lexer / parser / regex sub-parser / generator / type checker, sources of about a kilobyte), Compile+Run, Run on shared pre-compiled programs and Run followed by Json()/FormattedJson() of the result list, on short texts and on texts long enough for loops to pass 64, 128 and 256 iterations in one attempt, all released from one barrier, in a -race build of the worker; yield hooks (H2 every lexer read, H3 parser/generator sites, H1 every VM step) armed in half of the rounds. Oracle 1: the Go race detector (GORACE halt_on_error=0, log files parsed, reports de-duplicated by the pair of outermost repository frames): any report is a violation. Oracle 2: every concurrent call's result digest (canonical bytecode with loop ids normalised; all match fields; the rendered JSON texts) equals the digest of the same call executed alone in a fresh sequential worker. Oracle 3: canonical bytecode of the shared programs unchanged by the round. Non-trivial = a call whose [call,return] interval overlapped another call's on the shared monotonic clock; distinct by (round, call index)."
 	r.Assumptions = []string{
 		"the race detector only sees races on schedules that occur; yields and repetition raise the odds, not to certainty",
 		"the harness's own monitor state is atomic in concurrent mode; the step and lexer counters are switched off there",
